@@ -545,6 +545,66 @@ def lexer_progress_obligations(rep):
             rep.proved(oid, 'frames', 'no store to self.index other than `+= <positive constant>`', function=fn, clause=clause)
 
 
+def grammar_cycle_obligations(rep):
+    """termination of the LR driver between two shifts: a run of reductions without a shift is the reverse of a piece of a rightmost derivation of the text
+    consumed so far (tables consistent with the LR(0) automaton of the grammar: C05.tab.*); it can only be unbounded if some nonterminal derives itself
+    (A =>+ A through unit productions and nullable neighbours).  Obligation: the unit-derivation graph of each grammar - edge A -> B for every production
+    A -> alpha B beta with alpha, beta nullable - has no cycle.  (With it every string has finitely many parse trees, so the driver does finitely many
+    reductions per consumed token; shifts are bounded by the number of tokens.)"""
+    for dname in lrtab.DIALECTS:
+        d = lrtab.load(dname)
+        prods = [(p.name, tuple(p.prod)) for p in d.prods[1:]]
+        nts = {a for a, _ in prods}
+        nullable = set()
+        changed = True
+        while changed:
+            changed = False
+            for a, rhs in prods:
+                if a not in nullable and all(x in nullable for x in rhs):
+                    nullable.add(a)
+                    changed = True
+        edges = {a: set() for a in nts}
+        for a, rhs in prods:
+            for i, x in enumerate(rhs):
+                if x in nts and all(y in nullable for y in rhs[:i] + rhs[i + 1:]):
+                    edges[a].add(x)
+        # cycle detection (iterative DFS with colours)
+        colour, cyc = {}, None
+        for root in sorted(nts):
+            if root in colour:
+                continue
+            stack = [(root, iter(sorted(edges[root])))]
+            colour[root] = 1
+            path = [root]
+            while stack and cyc is None:
+                node, it = stack[-1]
+                for nxt in it:
+                    if colour.get(nxt) == 1:
+                        cyc = path[path.index(nxt):] + [nxt]
+                        break
+                    if nxt not in colour:
+                        colour[nxt] = 1
+                        path.append(nxt)
+                        stack.append((nxt, iter(sorted(edges[nxt]))))
+                        break
+                else:
+                    colour[node] = 2
+                    path.pop()
+                    stack.pop()
+            if cyc:
+                break
+        fn = f'{d.parser_module}:{d.parser_class_name}'
+        clause = 'no nonterminal derives itself (A =>+ A): between two shifts the driver performs finitely many reductions'
+        oid = f'C02.lr.acyclic.{dname}'
+        if not nts:
+            rep.undecided(oid, 'lrtab', 'no productions', function=fn, clause=clause)
+        elif cyc:
+            rep.failed(oid, 'lrtab', f'derivation cycle {" => ".join(cyc)}', function=fn, clause=clause,
+                       replay={'input': None, 'observed': 'a cyclic grammar lets the generated parser reduce forever on some inputs; not executed'})
+        else:
+            rep.proved(oid, 'lrtab', f'{len(nts)} nonterminals ({len(nullable)} nullable), {sum(len(v) for v in edges.values())} unit-derivation edges: acyclic', function=fn, clause=clause)
+
+
 def replay_synthetic(tok):
     """search for a rejected input whose expected set contains the token kind together with 1..18 other displayable kinds"""
     from mindsdb_sql import parse_sql
@@ -780,5 +840,6 @@ def check(rep, tier):
     action_obligations(rep, tier)
     token_function_obligations(rep)
     lexer_progress_obligations(rep)
+    grammar_cycle_obligations(rep)
     bounded(rep, tier)
     rep.notes.append('Per-action exception contracts; see evidence for the actions outside the engine\'s reach.')
